@@ -719,6 +719,7 @@ def gen_full(rng, tier):
     given to ParsedException.from_string: the first half of the property on real output."""
     prog = gen_ei(rng, tier)
     prog["kind"] = "full"
+    prog["keep_nl"] = rng.random() < 0.5
     return prog
 
 
@@ -1018,8 +1019,9 @@ def _capture(exc, tb, step, d, mods):
                   "shown": shown[:-1]}
     obs["interp"] = nomark[:-1]
     assert full.endswith("\n")
-    obs["fulltext"] = full[:-1]
-    obs["parsed_full"] = _parse_obs(full[:-1])[0]
+    given = full if step.get("keep_nl") else full[:-1]       # with or without the interpreter's final newline
+    obs["fulltext"] = given
+    obs["parsed_full"] = _parse_obs(given)[0]
     # ---- later: the file changes again; the ExceptionInfo object is asked once more ----------
     if "after" in step:
         _edit(d, step.get("after"), step, mods)
@@ -1100,7 +1102,7 @@ def _run_program(case):
         return _run_stack(case, d)
     if case["kind"] in ("ei", "full"):
         steps = [{"mode": "load", "modules": case["modules"], "entry": case["entry"], "expect": case["expect"],
-                  "full": case.get("full"), "first": "dict"}]
+                  "full": case.get("full"), "first": "dict", "keep_nl": case.get("keep_nl")}]
         names = [m for m, _ in case["modules"]]
     else:
         steps, names = case["steps"], case["mods"]
@@ -1281,7 +1283,7 @@ def nontrivial(case, obs):
     if case["kind"] == "ei":
         return len(obs["frames"]) >= 3
     if case["kind"] == "full":
-        return len(obs["live"]) >= 3 and obs["fulltext"] != obs["interp"]      # has marker lines
+        return len(obs["live"]) >= 3 and obs["fulltext"].rstrip("\n") != obs["interp"]      # has marker lines
     if case["kind"] == "stack":
         return len(obs["frames"]) >= 3
     if case["kind"] == "sess":
